@@ -1546,7 +1546,9 @@ def analyse(chk):
     chk.guard(rule_fixed, uni)
     chk.guard(rule_units, uni, prog)
     chk.guard(rule_param_write, uni, prog)
-    # external rules (one-line calls into other builders' modules go here, each wrapped in chk.guard)
+    # external rules
+    from sa import kerneldens  # noqa: E402 (b-eval: sign-domain rule for denominators of kernel gradients)
+    chk.guard(kerneldens.rule_kernel_denominators, prog)
     # -- end external rules
     chk.floor("param-write", 30, "methods/functions of kernels.py and dft_kernel.py taking array arguments")
     chk.floor("sibling-primitives", 9, "classes defining k_and_deriv / _get_k0_dk0_eval")
